@@ -12,11 +12,13 @@ import (
 	"fmt"
 	epb "github.com/google/gce-tcb-verifier/proto/endorsement"
 	"io"
+	"net"
 	"os"
 	"path/filepath"
 	"regexp"
 	"strings"
 	"sync"
+	"sync/atomic"
 	"time"
 
 	"github.com/google/gce-tcb-verifier/endorse"
@@ -128,6 +130,8 @@ func snpAtt(meas []byte, extra []byte) []byte {
 	return b
 }
 
+var realNetHits atomic.Int64
+
 var (
 	quoteMeas = rp.Meas("quote-measurement")
 	provMeas  = rp.Meas("provider-measurement")
@@ -173,7 +177,7 @@ func buildQuote(class string) ([]byte, error) {
 		q := proto.Clone(m.Quote).(*tpb.QuoteV4)
 		q.TdQuoteBody.MrTd = q.TdQuoteBody.MrTd[:31]
 		return proto.Marshal(&tpmpb.Attestation{TeeAttestation: &tpmpb.Attestation_TdxAttestation{TdxAttestation: q}})
-	case "certtable_extra", "certtable_extra_hex", "certtable_extra_b64", "certtable_extra_b64nl", "certtable_extra_b64wrap", "certtable_extra_b64crlf":
+	case "certtable_extra", "certtable_extra_hex", "certtable_extra_b64", "certtable_extra_b64nl", "certtable_extra_b64wrap", "certtable_extra_b64crlf", "certtable_extra_padded":
 		// (a 300-byte entry so that the base64 text spans several lines)
 		t := &abi.CertTable{Entries: []abi.CertTableEntry{{GUID: uuid.MustParse(sev.GCEFwCertGUID), RawCert: quoteBlob}, {GUID: uuid.MustParse(abi.VcekGUID), RawCert: bytes.Repeat([]byte("vcek bytes "), 28)}}}
 		raw := t.Marshal()
@@ -186,6 +190,8 @@ func buildQuote(class string) ([]byte, error) {
 			return b.String() + s + eol
 		}
 		switch strings.TrimPrefix(class, "certtable_extra") {
+		case "_padded":
+			return append(raw, make([]byte, 4096-len(raw)%4096)...), nil
 		case "_hex":
 			return []byte(hex.EncodeToString(raw)), nil
 		case "_b64":
@@ -282,14 +288,43 @@ func runSourcesVia(r srcRow, viaCLI bool) (out []byte, errText string, urls []st
 		opts.Getter = rg
 	}
 	var xerr error
-	func() {
+	type result struct {
+		o []byte
+		e error
+	}
+	ch := make(chan result, 1)
+	call := func(f func()) {
+		if rg != nil {
+			f()
+			r := <-ch
+			out, xerr = r.o, r.e
+			return
+		}
+		// no getter configured: nothing can take long; a call that does not return (a default getter
+		// retrying against the sentinel) is abandoned
+		go f()
+		wait := 3 * time.Second
+		if realNetHits.Load() > 0 {
+			wait = 200 * time.Millisecond
+		}
+		select {
+		case r := <-ch:
+			out, xerr = r.o, r.e
+		case <-time.After(wait):
+			out, xerr = nil, fmt.Errorf("TIMEOUT: no result within %v", wait)
+		}
+	}
+	call(func() {
+		var o []byte
+		var e error
 		defer func() {
 			if p := recover(); p != nil {
-				xerr = fmt.Errorf("PANIC: %v", p)
+				e = fmt.Errorf("PANIC: %v", p)
 			}
+			ch <- result{o, e}
 		}()
 		if !viaCLI {
-			out, xerr = extract.Endorsement(opts)
+			o, e = extract.Endorsement(opts)
 			return
 		}
 		io_ := &cliIO{files: map[string][]byte{}, out: map[string]*cliW{}}
@@ -321,11 +356,11 @@ func runSourcesVia(r srcRow, viaCLI bool) (out []byte, errText string, urls []st
 		root.SetOut(io.Discard)
 		root.SetErr(io.Discard)
 		root.SilenceErrors, root.SilenceUsage = true, true
-		xerr = root.Execute()
-		if w := io_.out["out.bin"]; w != nil && xerr == nil {
-			out = w.b
+		e = root.Execute()
+		if w := io_.out["out.bin"]; w != nil && e == nil {
+			o = w.b
 		}
-	}()
+	})
 	if rg != nil {
 		urls = rg.urls
 	}
@@ -468,7 +503,7 @@ func checkExtractCommand(run *vk.Run) {
 			}
 		}
 	}
-	for _, class := range []string{"snp_extra", "certtable_extra", "snp_bare_extra_product", "snp_bare_extra", "certtable_extra_b64wrap", "certtable_extra_b64crlf", "certtable_extra_hex"} {
+	for _, class := range []string{"snp_extra", "certtable_extra", "snp_bare_extra_product", "snp_bare_extra", "certtable_extra_b64wrap", "certtable_extra_b64crlf", "certtable_extra_hex", "certtable_extra_padded"} {
 		q, err := buildQuote(class)
 		if err != nil {
 			run.Infra(err)
@@ -638,6 +673,33 @@ func RunC16(run *vk.Run) {
 		return
 	}
 	run.AddTLC(em)
+	// a sentinel for the real network: every getter of this check is a recording double, so nothing may
+	// ever reach the process's default HTTP transport; it is pointed at a local listener that notes who
+	// was asked for and hangs up
+	if ln, lerr := net.Listen("tcp", "127.0.0.1:0"); lerr == nil {
+		defer ln.Close()
+		for _, k := range []string{"HTTPS_PROXY", "https_proxy", "HTTP_PROXY", "http_proxy"} {
+			os.Setenv(k, "http://"+ln.Addr().String())
+		}
+		os.Setenv("NO_PROXY", "")
+		os.Setenv("no_proxy", "")
+		go func() {
+			for {
+				c, aerr := ln.Accept()
+				if aerr != nil {
+					return
+				}
+				buf := make([]byte, 200)
+				c.SetReadDeadline(time.Now().Add(time.Second))
+				n, _ := c.Read(buf)
+				line := strings.SplitN(string(buf[:n]), "\r\n", 2)[0]
+				c.Close()
+				if realNetHits.Add(1) == 1 {
+					run.Violation("real-network-contacted", fmt.Sprintf("the process's own HTTP transport was used (%q) although every extraction of this check either has no getter at all or a recording one: without a configured getter there is no network access", line), nil)
+				}
+			}
+		}()
+	}
 	var drift int64
 	var mu sync.Mutex
 	tree, cleanup, err := buildTree()
